@@ -128,7 +128,7 @@ func c12Build(c c05Case) (*c12Dag, error) {
 			return nil, fmt.Errorf("unknown hand-written shard DAG %q", c.Hand)
 		}
 		d.s = store.New()
-		d.mayRefuse = strings.HasPrefix(c.Hand, "mixed")
+		d.mayRefuse = strings.HasPrefix(c.Hand, "mixed") || strings.HasPrefix(c.Hand, "irregular")
 		d.root, _ = spec.Build(d.s)
 		d.hm, err = model.Hamt(d.s, d.root)
 		if err != nil {
@@ -422,6 +422,34 @@ func (d *c12Dag) transient(x *xplore.Ctx, viol func(sig, detail string)) string 
 			return "not-large"
 		}
 		rs, _ := lb.AsLargeBytes()
+		// the read starts at offset 0 or (free choice, not a deviation) strictly
+		// inside a chunk: the reader then fast-forwards inside the first child it
+		// opens, and a load that fails there and succeeds on retry must not lose
+		// that position
+		starts := []int64{0}
+		var inner []int64
+		for _, nd := range d.tree.Nodes() {
+			if len(nd.Children) == 0 && nd.End-nd.Start >= 2 {
+				inner = append(inner, nd.Start+1)
+			}
+		}
+		// first, middle and last chunk
+		for _, i := range []int{0, len(inner) / 2, len(inner) - 1} {
+			if i >= 0 && i < len(inner) && inner[i] != starts[len(starts)-1] {
+				starts = append(starts, inner[i])
+			}
+		}
+		start := starts[x.ChooseFree(len(starts), "start-offset")]
+		want := d.content
+		if start > 0 {
+			if _, err := rs.Seek(start, io.SeekStart); err != nil {
+				if !store.IsInjected(err) {
+					viol("transient-seek-error", fmt.Sprintf("%s: Seek(%d): %v", d.c, start, err))
+				}
+				return fmt.Sprintf("file seek-error start=%d", start)
+			}
+			want = d.content[start:]
+		}
 		// sequential read that retries after errors (bounded): the bytes
 		// delivered must always be a prefix of the content; the first error
 		// must come exactly where the failed load's span starts.
@@ -429,14 +457,14 @@ func (d *c12Dag) transient(x *xplore.Ctx, viol func(sig, detail string)) string 
 		buf := make([]byte, 2)
 		errsSeen := 0
 		firstErrAt := -1
-		for calls := 0; calls < 8*len(d.content)+64; calls++ {
+		for calls := 0; calls < 8*len(want)+64; calls++ {
 			nn, err := rs.Read(buf)
 			got = append(got, buf[:nn]...)
 			if err == io.EOF {
 				// a failed load that the reader recovered from by loading the
 				// block again is not observable: only the delivered bytes count
-				if !bytes.Equal(got, d.content) {
-					viol("transient-eof-truncated", fmt.Sprintf("%s: loads %v failed; EOF after %d of %d bytes", d.c, failedAt, len(got), len(d.content)))
+				if !bytes.Equal(got, want) {
+					viol("transient-eof-truncated", fmt.Sprintf("%s: loads %v failed; EOF after %d of %d bytes", d.c, failedAt, len(got), len(want)))
 				}
 				break
 			}
@@ -446,7 +474,7 @@ func (d *c12Dag) transient(x *xplore.Ctx, viol func(sig, detail string)) string 
 					firstErrAt = len(got)
 					dfs := d.tree.Nodes()[1:]
 					k := failedAt[0]
-					if d.sized && d.c.Kind == "file" && k < len(dfs) && int64(firstErrAt) != dfs[k].Start {
+					if start == 0 && d.sized && d.c.Kind == "file" && k < len(dfs) && int64(firstErrAt) != dfs[k].Start {
 						viol("transient-prefix", fmt.Sprintf("%s: load #%d (%s, span starts at %d) failed, %d bytes were returned before the error", d.c, k, short(dfs[k].Cid), dfs[k].Start, firstErrAt))
 					}
 				}
@@ -458,12 +486,12 @@ func (d *c12Dag) transient(x *xplore.Ctx, viol func(sig, detail string)) string 
 				}
 				continue
 			}
-			if len(got) > len(d.content) || !bytes.Equal(got, d.content[:len(got)]) {
-				viol("transient-wrong-bytes", fmt.Sprintf("%s: loads %v failed; bytes delivered %s are not a prefix of the content", d.c, failedAt, clip(got, 16)))
+			if len(got) > len(want) || !bytes.Equal(got, want[:len(got)]) {
+				viol("transient-wrong-bytes", fmt.Sprintf("%s: loads %v failed; bytes delivered %s are not a prefix of the content from offset %d", d.c, failedAt, clip(got, 16), start))
 				break
 			}
 		}
-		return fmt.Sprintf("file failed=%v got=%d errs=%d", failedAt, len(got), errsSeen)
+		return fmt.Sprintf("file start=%d failed=%v got=%d errs=%d", start, failedAt, len(got), errsSeen)
 	}
 	// shard: full iteration under the fault plan
 	plan := map[int]bool{}
